@@ -17,6 +17,21 @@ PROPS = {
         "explanation": "Contracts on DhtKey::distance, KademliaRoutingTable::{get_bucket_index,get_bucket_index_for_key,add_node,remove_node,find_closest_nodes}.",
         "jobs": {"quick": 6, "thorough": 6},
     },
+    "C05": {
+        "verus_units": ["inbound"],
+        "trusted": COMMON_TRUSTED,
+        "assumptions": [
+            "postcard decoders/encoders are total functions (value or error): that they return normally for every byte string is NOT verified (dependency; a bounded Kani run of the decoders was not tractable in this sandbox)",
+            "wall clock below 2^62 seconds",
+        ],
+        "clauses_not_decided": [
+            "no-panic / bounded allocation of the postcard decoders themselves for all byte strings up to 128 KiB",
+            "the 64 KiB guard in DhtNetworkManager::handle_dht_message, the find-node count cap and the store-path size checks in DhtCoreEngine::handle_request (inside async methods of objects that need a transport / trip a Kani ICE)",
+            "TransportHandle::parse_request_envelope (decode-only wrapper; nothing to decide beyond the decoder's totality)",
+        ],
+        "explanation": "Verus proves on the mechanically extracted text of network::parse_protocol_message, DhtRecord::{deserialize, serialize} and DhtNetworkManager::validate_put_value_size: a framed message is surfaced iff it decodes and its timestamp is within [now-300, now+30]; the surfaced source is the identity passed in by the transport (never the payload's `from`), topic and data come from the frame; records over 512 bytes are refused and the decoder is never entered with more (precondition of the decoder shim); serialised records are at most 512 bytes; stored values are at most 512 bytes.",
+        "jobs": {"quick": 4, "thorough": 4},
+    },
     "C09": {
         "verus_units": ["peerrec"],
         "trusted": COMMON_TRUSTED,
